@@ -252,7 +252,7 @@ def payload(alg, opts, keys, amps, extra=None):
     return p
 
 
-def oracle_case(ctx, alg, opts, keys, amps, kind, form="opt", wires=None):
+def oracle_case(ctx, alg, opts, keys, amps, kind, form="opt", wires=None, allow_m1=False):
     """Statevector(definition) vs the dictionary embedded in the full register (auxiliaries |0>)."""
     from qiskit.quantum_info import Statevector
     n, m = len(keys[0]), len(keys)
@@ -614,6 +614,109 @@ def entry_form_cases(ctx, variants):
                 oracle_case(ctx, alg2, opts2, keys, amplitudes(ctx, m, "complex"), "complex", form="static")
 
 
+# ----------------------------------------------------------------------------------------------
+# boundary-value pass: sizes next to every size comparison of pivot.py / cvoqram.py / merge.py
+# ----------------------------------------------------------------------------------------------
+#   pivot.py    target_size t = ceil(log2 m); `non_zero <= 2`; aux width max(t - 1, 0); the rccx ladder `range(2, t)`;
+#               back-end switch `num_qubits >= 5 and control_size <= ceil(num_qubits / 2)` (both conjuncts, the other true);
+#               `dirty_anc[:control_size - 2]`
+#               -> m = 2^j - 1, 2^j, 2^j + 1 (j = 1..4) at n = 4, 5, 6, 7: t below / at / above ceil(n/2) for n >= 5, and
+#                  the same t at n = 4 (first conjunct false); with auxiliaries t = 2..5 (ladder of 0..3 inner rungs)
+#   cvoqram.py  len(control) == 0 / == 1 / else; `_mcuvchain` inner loop over lst_ctrl[2:] (0, 1, 2 rungs);
+#               `k < len(params) - 1` (single pattern m = 1: first = last)
+#               -> one pattern of every weight 0..n (m = 1), and chains of weights 0,1,2,3(,4) for n = 2..5, every variant
+#   merge.py    `while len(b_strings) > 1` with m = 1 (zero passes: prepared up to the phase of the amplitude), 2, 3;
+#               `if not dif_qubits` (plain U / controlled): m = 2 (never controlled), m = 3 (both)
+
+def _keys_with_pivot(ctx, n, m):
+    """m distinct n-bit keys with at least one key outside the low block (so that a pivot step, i.e. the MCX, happens)."""
+    sub = ctx.rng.sample(all_keys(n), m)
+    t = max(int(math.ceil(math.log2(m))), 1)
+    if n > t and not any(k[:n - t] != "0" * (n - t) for k in sub):
+        cand = [k for k in all_keys(n) if k[:n - t] != "0" * (n - t) and k not in sub]
+        sub[0] = ctx.rng.choice(cand)
+    return sub
+
+
+def boundary_cases(ctx, variants):
+    names = {vname(*v) for v in variants}
+    # ---- pivot
+    grid = {4: [2, 3, 4, 5, 7, 8, 9], 5: [2, 3, 4, 5, 7, 8, 9, 15, 16, 17], 6: [4, 5, 8, 9, 16, 17], 7: [7, 8, 9, 16, 17, 33]}
+    for n, ms in grid.items():
+        for m in ms:
+            t = max(int(math.ceil(math.log2(m))), 1)
+            for alg, opts in variants:
+                if alg != "pivot" or not valid(alg, opts, m):
+                    continue
+                if opts["aux"] and n + t - 1 > 10:
+                    continue
+                sub = _keys_with_pivot(ctx, n, m)
+                kind = ("complex", "signed", "neg")[(n + m) % 3]
+                keys = order_for(ctx, alg, sub)
+                amps = amplitudes(ctx, m, kind)
+                if opts["aux"]:
+                    ctx.count(f"boundary:pivot.aux ladder t={t}")
+                else:
+                    lim = int(math.ceil(n / 2))
+                    ctx.count(f"boundary:pivot switch n{'>=5' if n >= 5 else '<5'} t-limit={t - lim:+d}")
+                tie_case(ctx, alg, opts, keys, amps)
+                oracle_case(ctx, alg, opts, keys, amps, kind + ":bv")
+    # ---- cvoqram
+    allv = variants + [v for v in ORACLE_EXTRA if vname(*v) not in names]
+    for n in (2, 3, 4, 5):
+        chains = []
+        for w in range(n + 1):           # one pattern of every weight: m = 1
+            ones = ctx.rng.sample(range(n), w)
+            chains.append(["".join("1" if i in ones else "0" for i in range(n))])
+        full = [c[0] for c in chains]    # weights 0, 1, .., n in one dictionary
+        chains.append(full)
+        chains.append(full[1:])          # no all-zero pattern: the first rotation is controlled
+        chains.append(full[2:] if n >= 3 else full[1:])
+        for keys in chains:
+            if not keys:
+                continue
+            for alg, opts in allv:
+                if alg != "cvo":
+                    continue
+                kind = "complex" if len(keys) % 2 else "neg"
+                amps = amplitudes(ctx, len(keys), kind)
+                ctx.count("boundary:cvo single pattern" if len(keys) == 1 else "boundary:cvo weight chain")
+                if (alg, opts) in variants:
+                    tie_case(ctx, alg, opts, keys, amps)
+                oracle_case(ctx, alg, opts, keys, amps, kind + ":bv", allow_m1=True)
+    # ---- merge
+    if "merge" in names:
+        for n in (2, 3, 4):
+            for key in ("0" * n, "1" * n, "0" * (n - 1) + "1", "1" + "0" * (n - 1)):
+                for amp in (complex(1.0, 0.0), complex(-1.0, 0.0), complex(0.6, -0.8)):
+                    ctx.count("boundary:merge m=1 (up to phase)")
+                    merge_single(ctx, key, amp)
+
+
+def merge_single(ctx, key, amp):
+    """MergeInitialize on a single basis state: zero passes of the main loop, only the X gates; the property claims the
+    state up to the phase of the amplitude."""
+    from qiskit.quantum_info import Statevector
+    from qclib.state_preparation.merge import MergeInitialize
+    n = len(key)
+    tag = f"merge:m=1:n={n}:key={key}:amp={amp.real:g}{amp.imag:+g}j"
+    rep = payload("merge", {}, [key], [amp], {"single": True})
+    try:
+        with time_limit(BUILD_LIMIT_S):
+            circ = MergeInitialize({key: amp}).definition
+    except Exception as e:
+        ctx.fail(tag + ":raises:" + type(e).__name__, f"construction raised {type(e).__name__}: {e}", rep)
+        return
+    sv = np.asarray(Statevector(circ).data)
+    i = sum(1 << j for j, c in enumerate(key) if c == "1")
+    rest = np.delete(sv, i)
+    if circ.num_qubits != n or abs(abs(sv[i]) - 1) > TOL or (len(rest) and np.abs(rest).max() > TOL):
+        ctx.fail(tag, f"not the basis state |{key}> up to a phase: amplitude there {sv[i]:.6f}, largest other "
+                      f"{np.abs(rest).max() if len(rest) else 0:.3e}", rep)
+    else:
+        ctx.ok(tag, nontrivial=False)
+
+
 UNREACHED_JUSTIFIED = {
     "qclib/state_preparation/pivot.py:163->168": "dead: index_nonzero has a 1 among the first n-t bits and index_zero (< 2^t) is 0 there, so the "
                                                  "search loop always breaks (C06_pivot_step)",
@@ -638,6 +741,7 @@ def run(ctx, nmax_or=None, n_orders=None, only=None):
     branch_coverage_cases(ctx, variants)
     float_typed_cases(ctx, variants)
     entry_form_cases(ctx, variants)
+    boundary_cases(ctx, variants)
     if only is None:
         probe_matrix_angles(ctx)
 
@@ -730,4 +834,7 @@ def _run_oracle_only(ctx):
 def replay(ctx, payload):
     r = payload["replay"]
     amps = dec_amps(r["amps"])
+    if r.get("single"):
+        merge_single(ctx, r["keys"][0], complex(amps[0]))
+        return
     oracle_case(ctx, r["alg"], r["opts"], r["keys"], amps, "replay", form=r.get("form", "opt"), wires=r.get("wires"))
